@@ -29,6 +29,10 @@ pub mod c18;
 pub mod c19;
 pub mod c20;
 
+pub fn c13_ops(ctx: &Ctx, idx: u64, n: usize) -> Report {
+    c13::scenario_n(ctx, idx, n)
+}
+
 #[derive(Clone, Copy)]
 pub struct Ctx {
     pub seed: u64,
